@@ -130,4 +130,24 @@ theorem C15_source_compare_sequences (hX : SeqExt X o lg step) (nRes nRef : Nat)
        obtain ⟨st', rfl⟩ := key
        simp [C15.seqSuite, bne, hne, him, hfo])
 
+/-- … and this is the model's `compareSequences` (FcModel/Seq.lean) whenever both iterations complete (`zipOpt … = some
+    pairs`: no `get` raised, i.e. both sequences have at least one step): the suite of `compareSequences o res ref step` is the
+    one the translated loop returns on the steps the two iterations yield. -/
+theorem C15_source_compare_sequences_model (hX : SeqExt X o lg step) (res ref : Src) (rs fs : List Nat) (diff : Val)
+    (hdiff : diff = .none ∨ ∃ t, diff = .str t)
+    (hz : zipOpt (iterSeq res).1 (iterSeq ref).1 = some (rs.zip fs)) :
+    ∃ c, compareSequences o res ref step = .suite (C15.seqSuite o res.n ref.n step (rs.zip fs)) c ∧
+      Gen.c15oCompareSequencesSrc.run X [fcSelfV o lg, seqObj res.n rs, seqObj ref.n fs, diff] =
+        .ok (tsObj (C15.seqSuite o res.n ref.n step (rs.zip fs))) := by
+  refine ⟨if (res.n != ref.n) && !o.ignoreMissing && !o.force then [] else rs.zip fs, ?_,
+    C15_source_compare_sequences hX res.n ref.n rs fs diff hdiff⟩
+  simp only [compareSequences, C15.seqSuite, hz]
+  split <;> simp_all
+
+/-- `FieldDataSequence.__init__` stores the source; `number_of_steps` is the source's. -/
+theorem C15_source_sequence_init_numsteps (X : Ext) (src : Val) (n : Val) :
+    Gen.c15oSeqInitSrc.run X [src] = .ok (.dict [(.str "_source", src)]) ∧
+    Gen.c15oSeqNumStepsSrc.run X [.record [("_source", .record [("number_of_steps", n)])]] = .ok n := by
+  constructor <;> simp only [Gen.c15oSeqInitSrc, Gen.c15oSeqNumStepsSrc] <;> pylite_eval [dictSet]
+
 end Fc
